@@ -741,17 +741,21 @@ def rw_inline_helpers(text, src, log, depth=0, scope=None):
     own = st[1][1] if st[0][1] == 'fn' else None
     for i in range(body_open + 1, len(st) - 1):
         t = st[i]
-        if t[0] != 'ident' or st[i + 1][1] != '(' or st[i - 1][1] in ('::', 'fn', '!'):
+        if t[0] != 'ident' or st[i + 1][1] != '(' or st[i - 1][1] in ('fn', '!'):
+            continue
+        if st[i - 1][1] == '::' and not (st[i - 2][1] == 'Self' and scope and st[i - 3][1] != '::'):
             continue
         is_method = st[i - 1][1] == '.'
         if is_method and not (st[i - 2][1] == 'self' and st[i - 3][1] not in ('.', '::') and scope):
             continue
+        is_assoc = False
         name = t[1]
         if name in KNOWN_FN_NAMES or name == own or not re.match(r'^[a-z_][a-z0-9_]*$', name):
             continue
         h = None
         cands = [None]
-        if is_method:
+        is_assoc = st[i - 1][1] == '::'
+        if is_method or is_assoc:
             # the impl block of the caller, then the inherent impl of the same Self type
             ty = scope.split(' for ')[-1].replace('impl', '').strip()
             cands = [scope, 'impl ' + ty]
@@ -875,8 +879,8 @@ def rw_inline_helpers(text, src, log, depth=0, scope=None):
             end = st[cc][3]
         # keep the line count of the caller: the inlined text goes on one line
         repl = ' '.join(l.split('//')[0].strip() if '//' in l and '"' not in l else l.strip() for l in repl.split('\n'))
-        new = text[:(st[i - 2][2] if is_method else t[2])] + repl + text[end:]
-        log.append('R18 call of private helper `%s%s` (no contract, same file) inlined as a block' % ('self.' if is_method else '', name))
+        new = text[:(st[i - 2][2] if (is_method or is_assoc) else t[2])] + repl + text[end:]
+        log.append('R18 call of private helper `%s%s` (no contract, same file) inlined as a block' % ('self.' if is_method else ('Self::' if is_assoc else ''), name))
         return rw_inline_helpers(new, src, log, depth + 1, scope)
     return text
 
